@@ -456,6 +456,8 @@ def oracle(case, got, tree):
 
 def model_case(case, tree):
     if 'op' in case:
+        if case['op'] == 'su':
+            return su_model_case(case, tree)
         if case['op'] == 'np':
             return {'op': 'np', 'a': codes(case['a']), 'b': codes(case['b'])}
         return {'op': 'secure', 'tuple': [codes(x) for x in case['tuple']]}
@@ -513,6 +515,8 @@ def oracle_aux(case, got):
 
 def check_case(case, reply=None):
     """-> (got, mismatch|None, violation|None)"""
+    if case.get('op') == 'su':
+        return su_check(case, reply)
     if 'op' in case:
         got = impl_aux(case)
         mism = None
@@ -693,6 +697,9 @@ SIGNIFICANT = re.compile(r'\.\.|//|%|\\|\x00|[\x80-\xff]|\n|@@|^\.$|/\./|/\.$|<T
 
 
 def significant(case):
+    if case.get('op') == 'su':
+        names = [su_norm_name(n) for n, _ in case['adds']]
+        return len(case['adds']) > 1 or bool(case['busters']) or case.get('query') is not None or len(set(names)) < len(names)
     if 'op' in case:
         if case['op'] == 'np':
             return '..' in case['a'] + '/' + case['b'] or '//' in case['a'] + '/' + case['b'] or case['b'].startswith('/')
@@ -738,6 +745,19 @@ def exhaustive_np(maxlen):
     return out
 
 
+# witnesses of the recorded findings of the configuration / URL side (Props.C16 §5), replayed on the real code in every run
+SU_WITNESSES = [
+    # F-C16c: the same local name added again does not replace the registration
+    {'op': 'su', 'tree': 0, 'adds': [['static', '<PKG>:static'], ['static', '<ROOT>']], 'prefix': None, 'busters': [], 'override': None,
+     'asset': '<PKG>:static/file.txt', 'static_path': True, 'script_name': '', 'query': None, 'anchor': None},
+    # F-C16d: a later static view below the URL prefix of an earlier one
+    {'op': 'su', 'tree': 0, 'adds': [['a', '<ROOT>'], ['a/b', '<PKG>:static']], 'prefix': None, 'busters': [], 'override': None,
+     'asset': '<PKG>:static/file.txt', 'static_path': True, 'script_name': '', 'query': None, 'anchor': None},
+    # F-C16e: a string _query with a query-string cache buster
+    {'op': 'su', 'tree': 0, 'adds': [['static', '<ROOT>']], 'prefix': None, 'busters': [['<ROOT>', 'q', False, 'x', 'tok', []]], 'override': None,
+     'asset': '<ROOT>/file.txt', 'static_path': True, 'script_name': '', 'query': {'str': 'a=1'}, 'anchor': None},
+]
+
 # the witnesses of the repaired defects F-C16a / F-C16b (Props.C16.index_directory_is_missing, plain_mount_non_ascii_served):
 # regression cases, evaluated on the real code in every run
 WITNESSES = [
@@ -746,6 +766,375 @@ WITNESSES = [
     {'mount': 'plain', 'kind': 'fs', 'tree': 0, 'encs': 0, 'ae': None, 'pieces': ['/', 'sp ace/\xc3\xbc.txt'], 'qs': ''},
     {'mount': 'plain', 'kind': 'fs', 'tree': 0, 'encs': 0, 'ae': None, 'pieces': ['/', '\xe6\x97\xa5\xe6\x9c\xac'], 'qs': ''},
 ]
+
+
+
+# ------------------------------------------------------------------------------------------------
+# the configuration / URL side: add_static_view, add_cache_buster, static_url / static_path, and the way back
+#
+#   {"op":"su","tree":n,"adds":[[name, specref],…],"prefix":str|null,"busters":[[specref,"q"|"m",explicit,param,token,[[k,v],…]],…],
+#    "override":null|[specref,specref],"asset":specref-with-subpath,"static_path":b,"script_name":str,
+#    "query":null|{"dict":b,"pairs":[[k,v],…]}|{"str":s}|{"null":true},"anchor":str|null}
+# specrefs use <ROOT> (the filesystem root), <PKG> (the scratch package), <T>.
+
+SU_NAMES = ['static', 'static/', 'assets/v 1', 'a', 'a/b', 'b', 's t', 'ü', '/abs', 'http://cdn.example.com/s', '//cdn.example.com/x/',
+            'https://h.example/é', 'x.y', 'static2']
+SU_SPECS = ['<ROOT>', '<ROOT>/', '<PKG>:static', '<PKG>:static/', '<ROOT>/sub', '<PKG>:static/sub', '<PKG>:static/sub/deep/', '<PKG>:static2',
+            '<T>/site2', '<PKG>:']
+
+
+def su_norm_spec(spec):
+    return spec if spec.endswith('/') or spec.endswith(':') else spec + '/'
+
+
+def su_norm_name(name):
+    return name if name.endswith('/') else name + '/'
+
+
+def su_expand(tree, s):
+    return s.replace('<ROOT>', tree.root['fs']).replace('<PKG>', tree.pkgname).replace('<T>', tree.T)
+
+
+def su_spec_dir(tree, spec):
+    """the directory an (expanded, normalised) spec names"""
+    if ':' in spec and not spec.startswith('/'):
+        pkg, rel = spec.split(':', 1)
+        return (tree.T + '/' + pkg + '/' + rel).rstrip('/')
+    return spec.rstrip('/')
+
+
+def su_build(tree, case):
+    from pyramid.config import Configurator
+    from pyramid.static import QueryStringConstantCacheBuster, ManifestCacheBuster
+
+    class FixedManifest(ManifestCacheBuster):
+        def __init__(self, m):
+            self._m = m
+
+        @property
+        def manifest(self):
+            return self._m
+
+    cfg = Configurator()
+
+    def add_all():
+        for name, spec in case['adds']:
+            cfg.add_static_view(name, su_expand(tree, spec))
+            cfg.commit()
+    if case.get('prefix'):
+        with cfg.route_prefix_context(case['prefix']):
+            add_all()
+    else:
+        add_all()
+    for spec, kind, explicit, param, token, manifest in case['busters']:
+        cb = QueryStringConstantCacheBuster(token, param=param) if kind == 'q' else FixedManifest(dict(manifest))
+        cfg.add_cache_buster(su_expand(tree, spec), cb, explicit=explicit)
+        cfg.commit()
+    if case.get('override'):
+        cfg.override_asset(to_override=su_expand(tree, case['override'][0]), override_with=su_expand(tree, case['override'][1]))
+        cfg.commit()
+    return cfg
+
+
+def su_kw(case):
+    kw = {}
+    q = case.get('query')
+    if q is not None:
+        if 'pairs' in q:
+            kw['_query'] = dict(q['pairs']) if q['dict'] else [tuple(p) for p in q['pairs']]
+        elif 'str' in q:
+            kw['_query'] = q['str']
+        else:
+            kw['_query'] = None
+    if case.get('anchor') is not None:
+        kw['_anchor'] = case['anchor']
+    return kw
+
+
+def su_impl(case):
+    """-> {'url':…|None, 'err':…, 'regs':…, 'busters':…, 'back':canon response|None, 'query_after':…}"""
+    from pyramid.request import Request
+    from pyramid.interfaces import IStaticURLInfo
+    tree = get_tree(case['tree'])
+    out = {'url': None, 'err': None, 'back': None}
+    try:
+        cfg = su_build(tree, case)
+    except Exception as e:      # noqa
+        return {'url': None, 'err': 'config:' + type(e).__name__, 'back': None, 'regs': None, 'busters': None}
+    info = cfg.registry.queryUtility(IStaticURLInfo)
+    T = lambda x: None if x is None else x.replace(tree.T, '<T>').replace(tree.pkgname, '<PKG>')
+    out['regs'] = [[T(u), T(sp), rn] for u, sp, rn in info.registrations] if info else []
+    out['busters'] = [[T(sp), ex] for sp, cb, ex in info.cache_busters] if info else []
+    env = base_environ('/', '', None)
+    env['SCRIPT_NAME'] = case.get('script_name', '')
+    req = Request(env)
+    req.registry = cfg.registry
+    kw = su_kw(case)
+    before = json.dumps(kw.get('_query'), sort_keys=True, default=str)
+    try:
+        f = req.static_path if case['static_path'] else req.static_url
+        out['url'] = f(su_expand(tree, case['asset']), **kw)
+    except ValueError as e:
+        out['err'] = 'nostatic' if 'No static URL definition' in str(e) else 'ValueError'
+    except Exception as e:      # noqa
+        out['err'] = type(e).__name__
+    out['query_mutated'] = json.dumps(kw.get('_query'), sort_keys=True, default=str) != before
+    if out['url'] is not None:
+        sp = urllib.parse.urlsplit(out['url'])
+        local = sp.netloc in ('', 'localhost', 'localhost:80')
+        if local:
+            path = urllib.parse.unquote_to_bytes(sp.path).decode('latin-1')
+            script = case.get('script_name', '')
+            if path.startswith(script):
+                app = cfg.make_wsgi_app()
+                got = {}
+                envb = base_environ(path[len(script):], '', None)
+                envb['SCRIPT_NAME'] = script
+                try:
+                    it = app(envb, lambda st, h, exc_info=None: got.update(status=st, headers=h))
+                    try:
+                        body = b''.join(it)
+                    finally:
+                        if hasattr(it, 'close'):
+                            it.close()
+                    out['back'] = canon_response(tree, got['status'], got['headers'], body)
+                except Exception as e:      # noqa
+                    out['back'] = canon_exc(e)
+        out['url'] = T(out['url'])
+    return out
+
+
+def su_effective(case):
+    """the registrations the property speaks of: registration order, a re-added name replacing its earlier registration"""
+    eff = []
+    for name, spec in case['adds']:
+        n = su_norm_name(name)
+        eff = [e for e in eff if e[0] != n] + [(n, su_norm_spec(spec))]
+    return eff
+
+
+def su_is_url(name):
+    try:
+        return bool(urllib.parse.urlsplit(name).netloc)
+    except ValueError:
+        return False
+
+
+def su_pick_buster(case, asset):
+    """documented choice: explicit busters (matched on the overriding asset's spec) before the others, most specific first"""
+    raw = asset
+    if case.get('override') and asset.startswith(case['override'][0]):        # a directory override: both specs end with '/'
+        raw = case['override'][1] + asset[len(case['override'][0]):]
+    eff = {}
+    for spec, kind, explicit, param, token, manifest in case['busters']:
+        eff[(su_norm_spec(spec), explicit)] = (kind, param, token, manifest)
+    cands = [(ex, len(sp), sp) for (sp, ex) in eff if (raw if ex else asset).startswith(sp)]
+    if not cands:
+        return None, raw
+    ex, _, sp = max(cands)
+    return eff[(sp, ex)], raw
+
+
+def su_oracle(case, got, tree):
+    """the property on the configuration / URL side"""
+    case = json.loads(su_expand(tree, json.dumps(case)))            # every placeholder replaced: prefixes are compared on real specs
+    asset = case['asset']
+    if got['err'] and got['err'].startswith('config:'):
+        return {'detail': 'configuration failed: %s' % got['err'], 'expected': 'a configuration'}
+    eff = su_effective(case)
+    hit = [(n, sp) for n, sp in eff if asset.startswith(sp)]
+    # F-C16c's class: the first covering entry of the raw list is a local name that was added again later
+    # (the list as F-C16c leaves it: external names replaced, local names accumulated; a local entry is stale when the same
+    # name was added again after it)
+    kept = []
+    for i, (n, sp) in enumerate(case['adds']):
+        n = su_norm_name(n)
+        if su_is_url(n):
+            kept = [k for k in kept if k[1] != n]
+        kept.append((i, n, su_norm_spec(sp)))
+    raw_hits = [k for k in kept if asset.startswith(k[2])]
+    stale = bool(raw_hits) and not su_is_url(raw_hits[0][1]) and \
+        any(su_norm_name(n) == raw_hits[0][1] for n, _ in case['adds'][raw_hits[0][0] + 1:]) and \
+        (not hit or (raw_hits[0][1], raw_hits[0][2]) != hit[0])
+    v = su_oracle2(case, got, tree, asset, hit)
+    if v and stale and not v.get('finding'):
+        v['finding'] = 'F-C16c'
+    return v
+
+
+def su_oracle2(case, got, tree, asset, hit):
+    if not hit:
+        if got['err'] != 'nostatic':
+            return {'detail': 'no registration covers %r at a path boundary, yet: %s' % (asset, json.dumps(got)[:160]), 'expected': {'err': 'nostatic'}}
+        return None
+    name, spec = hit[0]
+    sub = asset[len(spec):]
+    buster, raw = su_pick_buster(case, asset)
+    q = case.get('query')
+    pairs = None if q is None else [tuple(p) for p in q['pairs']] if 'pairs' in q else 'other'
+    want_pairs = [] if pairs is None else pairs
+    if buster and buster[0] == 'm':
+        sub2 = dict(buster[3]).get(sub, sub)
+    else:
+        sub2 = sub
+    if buster and buster[0] == 'q':
+        if pairs == 'other':
+            # a string / None `_query` is a documented argument of route_url; the buster has no documented way to add to it
+            if got['url'] is None:
+                return {'detail': 'static_url raised %s for a %s _query with a query-string cache buster' % (got['err'], 'str' if 'str' in q else 'None'),
+                        'expected': 'a URL', 'finding': 'F-C16e'}
+            return None
+        if q is not None and q.get('dict') and any(k == buster[1] for k, _ in want_pairs):
+            want_pairs = [(k, buster[2] if k == buster[1] else v) for k, v in want_pairs]
+        else:
+            want_pairs = list(want_pairs) + [(buster[1], buster[2])]
+    if got['url'] is None:
+        return {'detail': 'static_url raised %s' % got['err'], 'expected': 'a URL under %r' % name}
+    url = su_expand(tree, got['url'])
+    sp = urllib.parse.urlsplit(url)
+    if pairs != 'other':
+        if urllib.parse.parse_qsl(sp.query, keep_blank_values=True) != [(str(k), str(v)) for k, v in want_pairs]:
+            return {'detail': 'query of %r is not the given one%s' % (got['url'], ' plus the cache-bust token' if buster and buster[0] == 'q' else ''),
+                    'expected': want_pairs}
+    if urllib.parse.unquote(sp.fragment) != (case.get('anchor') or ''):
+        return {'detail': 'anchor not passed through: %r' % got['url'], 'expected': case.get('anchor')}
+    path = urllib.parse.unquote(sp.path)
+    if su_is_url(name):
+        segs = sub2.split('/')
+        if sub2 and not (all(x for x in segs[:-1]) and all(x not in ('.', '..') for x in segs)):
+            return None                         # urljoin resolves dot and empty segments: C17's ground (`outside` in its model)
+        base = urllib.parse.urlsplit(name)
+        if sp.netloc != base.netloc or path != urllib.parse.unquote(base.path) + sub2:
+            if case['static_path']:
+                return None                     # F-C17c (C17's): static_path of an external registration is the absolute URL
+            return {'detail': 'external URL %r is not the base URL joined with the subpath' % got['url'], 'expected': name + sub2}
+        return None
+    pre = ('/' + case['prefix'].strip('/') if case.get('prefix') else '')
+    want_path = case.get('script_name', '') + pre + '/' + name.lstrip('/') + sub2
+    if path != want_path:
+        return {'detail': 'path of %r is not <script>/<name>/<subpath>' % got['url'], 'expected': want_path}
+    if not case['static_path'] and sp.netloc not in ('localhost', 'localhost:80'):
+        return {'detail': 'host of %r' % got['url'], 'expected': 'localhost'}
+    # the way back: the same application serves that URL with the file the spec designates
+    if case.get('override'):
+        return None                             # asset overrides also change what a package root serves: not modelled
+    back = got.get('back')
+    segs = [x for x in sub2.split('/')]
+    target = su_spec_dir(tree, su_expand(tree, spec)) + ''.join('/' + x for x in segs)
+    proper_sub = all(proper(x) for x in segs) and all(ord(c) < 0x110000 for c in sub2)
+    if not proper_sub:
+        return None
+    exp = 'file' if tree.isfile(target) else 'redirect' if tree.isdir(target) else 'notfound'
+    ok = back is not None and back['out'] == exp and (exp != 'file' or back.get('path') == target)
+    if not ok:
+        v = {'detail': 'the generated URL %r, requested from the same application, answers %s' % (got['url'], json.dumps(back, default=str)[:140].replace(tree.T, '<T>')),
+             'expected': {'out': exp, 'path': target.replace(tree.T, '<T>')}}
+        # narrow classes of the recorded findings
+        names = [su_norm_name(n) for n, _ in case['adds']]
+        if True:
+            mine = pre + '/' + name.lstrip('/')
+            earlier = []
+            for n in names:
+                if n == name:
+                    break
+                if not su_is_url(n):
+                    earlier.append(pre + '/' + n.lstrip('/'))
+            if any(path[len(case.get('script_name', '')):].startswith(e) for e in earlier):
+                v['finding'] = 'F-C16d'
+        return v
+    return None
+
+
+def su_model_case(case, tree):
+    X = lambda s: su_expand(tree, s)
+    raw = []
+    if case.get('override'):
+        a, b = X(case['override'][0]), X(case['override'][1])
+        asset = X(case['asset'])
+        if asset.startswith(a):
+            raw.append([codes(asset), codes(b + asset[len(a):])])
+    q = case.get('query')
+    mq = None
+    if q is not None:
+        if 'pairs' in q:
+            mq = {'dict': q['dict'], 'pairs': [[codes(str(k)), codes(str(v))] for k, v in (dict(q['pairs']).items() if q['dict'] else q['pairs'])]}
+        elif 'str' in q:
+            mq = {'str': codes(q['str'])}
+        else:
+            mq = {'null': True}
+    return {'op': 'su', 'adds': [[codes(n), codes(X(sp))] for n, sp in case['adds']], 'prefix': None if not case.get('prefix') else codes(case['prefix']),
+            'busters': [[codes(X(sp)), k, ex, codes(pa), codes(tk), [[codes(a), codes(b)] for a, b in mf]] for sp, k, ex, pa, tk, mf in case['busters']],
+            'raw': raw, 'path': codes(X(case['asset'])), 'static_path': case['static_path'], 'script_name': codes(case.get('script_name', '')),
+            'query': mq, 'anchor': None if case.get('anchor') is None else codes(case['anchor'])}
+
+
+def su_check(case, reply=None):
+    tree = get_tree(case['tree'])
+    got = su_impl(case)
+    v = su_oracle(case, got, tree)
+    if v:
+        v.update({'case': case, 'impl': got})
+        v = json.loads(json.dumps(v, default=str).replace(tree.T, '<T>').replace(tree.pkgname, '<PKG>'))
+    mism = None
+    if reply is not None:
+        if 'error' in reply:
+            mism = {'case': case, 'impl': got, 'model': reply}
+        else:
+            T = lambda x: None if x is None else x.replace(tree.T, '<T>').replace(tree.pkgname, '<PKG>')
+            m_url = T(uncodes(reply['url']))
+            m_regs = [[T(uncodes(u)), T(uncodes(sp)), uncodes(rn) or None] for u, sp, rn in reply['regs']]
+            m_bust = [[T(uncodes(sp)), ex] for sp, ex in reply['busters']]
+            i_err = got['err']
+            if reply['err'] == 'outside':
+                pass                                # outside the modelled fragment (urljoin dot segments, str/None query with a buster)
+            elif got['regs'] is not None and (m_regs != got['regs'] or m_bust != got['busters']):
+                mism = {'case': case, 'impl': {'regs': got['regs'], 'busters': got['busters']}, 'model': {'regs': m_regs, 'busters': m_bust}}
+            elif (m_url, reply['err']) != (got['url'], 'nostatic' if i_err == 'nostatic' else None if got['url'] is not None else i_err):
+                mism = {'case': case, 'impl': {'url': got['url'], 'err': i_err}, 'model': {'url': m_url, 'err': reply['err']}}
+    return got, mism, v
+
+
+def gen_su(rng, tree, tree_id):
+    n = rng.choice([1, 1, 2, 2, 3, 4])
+    adds = []
+    for _ in range(n):
+        name = rng.choice(SU_NAMES)
+        if adds and rng.random() < 0.12:
+            name = rng.choice(adds)[0]                                        # the same name again
+            if not name.endswith('/') and rng.random() < 0.4:
+                name += '/'
+        adds.append([name, rng.choice(SU_SPECS)])
+    case = {'op': 'su', 'tree': tree_id, 'adds': adds, 'prefix': rng.choice([None, None, None, None, 'pre', 'p/q']),
+            'busters': [], 'override': None, 'static_path': rng.random() < 0.5, 'script_name': rng.choice(['', '', '', '/app', '/a b']),
+            'query': None, 'anchor': rng.choice([None, None, None, 'top', 'a b#c', ''])}
+    # the asset: under one of the registrations (mostly), next to one, or nowhere
+    r = rng.random()
+    spec = su_norm_spec(rng.choice(adds)[1])
+    paths = inside_paths(tree)
+    if r < 0.75:
+        sub = rng.choice(paths)
+        if rng.random() < 0.3:
+            sub = rng.choice(['sub/', 'sub', '', 'nope.txt', 'sub/../file.txt', 'a//b', './file.txt', 'file.txt?x', 'sp ace/ü.txt', '%2e%2e/in.txt'])
+        case['asset'] = spec + sub
+    elif r < 0.9:
+        case['asset'] = spec.rstrip('/') + rng.choice(['2/secret.txt', '.gz', 'x', '2'])      # boundary: a sibling whose name extends the spec
+    else:
+        case['asset'] = rng.choice(['<PKG>:nowhere/x', '/etc/passwd', '<T>/secret.txt', 'otherpkg:static/file.txt'])
+    for _ in range(rng.choice([0, 0, 1, 1, 2, 3])):
+        bspec = rng.choice([spec, spec + 'sub', '<PKG>:static', '<ROOT>', '<PKG>:static2', '<PKG>:', spec.rstrip('/')])
+        if rng.random() < 0.7:
+            case['busters'].append([bspec, 'q', rng.random() < 0.3, rng.choice(['x', 'v', 'a']), rng.choice(['tok', 'a b&c', 'ü1']), []])
+        else:
+            sub = case['asset'][len(spec):] if case['asset'].startswith(spec) else 'file.txt'
+            case['busters'].append([bspec, 'm', rng.random() < 0.3, '', '', [[sub, rng.choice(['big.txt', 'sub/a.css', 'file-1234.txt', sub])], ['zzz', 'yyy']]])
+    qk = rng.random()
+    if qk < 0.25:
+        case['query'] = {'dict': rng.random() < 0.5, 'pairs': rng.choice([[['a', '1']], [['x', '0'], ['a', '1']], [], [['k k', 'v&v'], ['x', 'y']]])}
+    elif qk < 0.3:
+        case['query'] = rng.choice([{'str': 'a=1&b=2'}, {'null': True}])
+    if rng.random() < 0.1:
+        case['override'] = ['<PKG>:static/sub/', '<PKG>:static2/']
+    return case
 
 
 # ------------------------------------------------------------------------------------------------
@@ -779,6 +1168,16 @@ def shrink_violation(v):
 
     def still(c):
         try:
+            if case.get('op') == 'su':
+                if set(c) != set(case) or c.get('op') != 'su' or not isinstance(c.get('asset'), str) or not c.get('adds') or \
+                        not all(isinstance(a, list) and len(a) == 2 and all(isinstance(x, str) and x for x in a) for a in c['adds']) or \
+                        not all(isinstance(b, list) and len(b) == 6 and b[1] in ('q', 'm') and isinstance(b[0], str) and b[0] and isinstance(b[3], str) and b[3] + b[1] != 'q'
+                                and isinstance(b[4], str) and isinstance(b[5], list) and all(isinstance(m, list) and len(m) == 2 for m in b[5]) for b in c['busters']) or \
+                        not isinstance(c.get('script_name'), str) or c.get('tree') != case['tree'] or c.get('prefix') != case.get('prefix') or \
+                        c.get('override') != case.get('override') or c.get('query') != case.get('query') or c.get('script_name') != case.get('script_name'):
+                    return False
+                _, _, w = check_case(c)
+                return bool(w) and w.get('finding') == fid and w['detail'][:24] == v['detail'][:24]
             if 'op' in c:
                 if set(c) != set(case):
                     return False
@@ -826,7 +1225,11 @@ def _run(ctx, rng):
     cases.sort(key=lambda c: (c.get('tree') is None, c.get('tree') or 0))      # one fs line per tree; stable
     cases += [gen_np(rng) for _ in range(n_np)] + [gen_secure(rng) for _ in range(n_sec)]
     ex = exhaustive_cases(ctx.n(2, 4), 0) + exhaustive_tuples(ctx.n(2, 4), 0) + exhaustive_np(ctx.n(6, 10))
-    rows = evaluate(ctx, cases) + evaluate(ctx, ex) + evaluate(ctx, WITNESSES)
+    # the configuration / URL side (generated last, so that the request stream of a seed is what it always was)
+    su_corpus = [c for c in cases if c.get('op') == 'su']
+    cases = [c for c in cases if c.get('op') != 'su']
+    su = su_corpus + SU_WITNESSES + [gen_su(rng, get_tree(0), 0) for _ in range(ctx.n(900, 12000))]
+    rows = evaluate(ctx, cases) + evaluate(ctx, ex) + evaluate(ctx, WITNESSES) + evaluate(ctx, su)
     # second pass over the request cases in shuffled order: the view caches (filemap, lru_cache) must not matter
     again = [c for c in cases if 'op' not in c]
     first = {vfutil.canon(c): canon_impl(g) for c, g, _, _, _ in rows if 'op' not in c}
@@ -841,7 +1244,9 @@ def _run(ctx, rng):
     seen, nontriv = set(), set()
     dist = {'mount': {}, 'kind': {}, 'outcome': {}, 'outcome_by_mount': {}, 'pieces': {}, 'accept_encoding': {}, 'served_encoding': {},
             'content_encodings': {}, 'attack_pieces': {}, 'names_outside_root': 0, 'tuple_refused_by_secure_path': 0,
-            'aux': {}, 'exhaustive_scope': {}, 'regression_witnesses': {}, 'lean_spec_equals_model': 0, 'lean_spec_differs': 0,
+            'aux': {}, 'exhaustive_scope': {}, 'regression_witnesses': {}, 'static_url': {'answer': {}, 'registrations': {}, 'busters': {}, 'way_back': {},
+                                                                                     'same_name_again': 0, 'boundary_sibling': 0, 'query': {}, 'known_finding_cases': {}},
+'lean_spec_equals_model': 0, 'lean_spec_differs': 0,
             'trees': {str(t): len(get_tree(t).entries) for t in trees}, 'nontrivial_by_kind': {}}
     known_seen = {}
     for c, got, m, v, r in rows:
@@ -857,6 +1262,19 @@ def _run(ctx, rng):
             if significant(c):
                 nontriv.add(key)
                 bump(dist['nontrivial_by_kind'], c.get('op') or c['mount'])
+        if c.get('op') == 'su':
+            d = dist['static_url']
+            bump(d['answer'], 'url:external' if got['url'] and not got['url'].startswith(('/', 'http://localhost')) else 'url:local' if got['url'] else str(got['err']))
+            bump(d['registrations'], len(c['adds'])); bump(d['busters'], len(c['busters']))
+            bump(d['way_back'], (got.get('back') or {}).get('out', 'not requested'))
+            names = [su_norm_name(n) for n, _ in c['adds']]
+            d['same_name_again'] += len(set(names)) < len(names)
+            d['boundary_sibling'] += not any(c['asset'].startswith(su_norm_spec(sp)) for _, sp in c['adds']) and any(c['asset'].startswith(su_norm_spec(sp).rstrip('/')) for _, sp in c['adds'])
+            bump(d['query'], 'absent' if c.get('query') is None else 'dict' if c['query'].get('dict') else 'pairs' if 'pairs' in c['query'] else 'str/None')
+            if v and v.get('finding'):
+                bump(d['known_finding_cases'], v['finding'])
+            bump(dist['aux'], 'su')
+            continue
         if 'op' in c:
             bump(dist['aux'], c['op'])
             continue
